@@ -448,6 +448,8 @@ def _doc_cause(got, chain, info, prog, line, name):
     if not src:
         return "none"
     i = src[0]
+    if prog[line - 1][1] == "multi" and prog[line - 1][2] != name:
+        return "multi-target-leak"      # second target of  a = b = ...: it takes what was forwarded to the first target
     if i in chain and info[i]["k"] in ("def", "init", "class"):
         return "forwarded-from-non-attribute"
     if i not in chain and any(prog[c - 1][1] == "multi" for c in chain):
